@@ -31,6 +31,9 @@ CLAIMED = {
  'C04': dict(
    text="Proof for all finite binary64 operands (thorough: binary32): every component-wise operator instance discovered from the instantiated classes (~1190: quantity op quantity, quantity op number, number * quantity, tensor kernels) returns in each slot exactly the IEEE result of (left slot) op (right slot) in written order; every compound assignment leaves old(a) op b and writes nothing but a (so any interleaving equals the chain of pure operators by induction); every constructor with an operator twin stores the identical value (CBMC contract per function, cvc5 back end).",
    ref="DESIGN.md 5 C04", note="NaN results unconstrained. Operator instances that are not component-wise (matrix-vector products, thermal strain) belong to C09/C18 and are listed in the evidence. std:: math overloads for dimensionless scalars are not yet under contract. x87 long double has no bit-precise obligation."),
+ 'C11': dict(
+   text="Proof for all finite non-zero vectors in the non-overflowing range, binary32 and binary64: in each of the eight angle kernels the value passed to acos is within [-1,1] and not NaN and the stored angle is within [0, pi] (CBMC contracts; Magnitude and Dot are replaced by their own bit-precisely proved range contracts); the ~22 quantity-level angle constructors delegate to the kernel of their value type on their own stored vectors; the dot product is symmetric bit for bit; over the reals the acos argument equals a.b/(|a||b|), lies in [-1,1] (Cauchy-Schwarz) and is symmetric (z3).",
+   ref="DESIGN.md 5 C11", note="libm acos contract assumed (range, NaN-freedom on [-1,1]). Directions are assumed to satisfy their representation invariant (C10). Agreement with atan2 to 1e-7 rad is not machine-checked. The defect found on the original tree (unclamped cosine -> NaN) is repaired by a fix: commit and recorded in known_findings.txt."),
 }
 REASONS = {'C19': "static-initialisation order is a property of the compilers' start-up schedule, not of any function's pre/postcondition; CBMC has no model of C++ dynamic initialisation and contracts cannot express it (DESIGN.md 6)"}
 checks = []
